@@ -534,8 +534,10 @@ fn events(reps: &[Rep]) -> String {
     ev.join(",")
 }
 
+/// the gap the scripted server leaves between two pieces of a reply (µs); raised for the slow-server scenarios
+static GAP_US: std::sync::atomic::AtomicU64 = std::sync::atomic::AtomicU64::new(700);
 fn pause() {
-    std::thread::sleep(Duration::from_micros(700));
+    std::thread::sleep(Duration::from_micros(GAP_US.load(std::sync::atomic::Ordering::SeqCst)));
 }
 
 fn read_line_partial(s: &mut UnixStream) -> Result<Vec<u8>, Vec<u8>> {
@@ -788,7 +790,8 @@ impl<'a> Hs<'a> {
             };
             let _ = tx.send((res, msg, el));
         });
-        let got = rx.recv_timeout(Duration::from_millis(2500));
+        let pieces: u64 = reps.iter().map(|r| r.chunks.len() as u64).sum();
+        let got = rx.recv_timeout(Duration::from_millis(2500) + Duration::from_micros(pieces * GAP_US.load(std::sync::atomic::Ordering::SeqCst)));
         let trace = srv.join().unwrap_or_default();
         let hexuid: String = self.uid.to_string().bytes().map(|b| format!("{:02x}", b)).collect();
         let mut steps: Vec<Vec<u8>> = vec![format!("AUTH EXTERNAL {}\r\n", hexuid).into_bytes()];
@@ -1109,6 +1112,18 @@ fn handshake_phase(out: &mut Out, rng: &mut Prng, cfg: &Cfg) {
     // 2. every reply class at step 2
     for (_, l) in &c2 {
         hs.connect(vec![ok(), rep(vec![line(l)])], true, "conn_class2", true);
+    }
+    // 2b. a SLOW server: the OK line arrives in three pieces with long gaps (quick: 150 ms, thorough: 2.1 s, the whole
+    //     step then takes longer than any plausible handshake budget): the handshake still has to complete, in bounded
+    //     time after the last piece, without panicking
+    {
+        let gap = if cfg.thorough { 2_100_000 } else { 150_000 };
+        GAP_US.store(gap, std::sync::atomic::Ordering::SeqCst);
+        let l = line(b"OK 1234deadbeef");
+        for fd in [true, false] {
+            hs.connect(vec![rep(vec![l[..2].to_vec(), l[2..9].to_vec(), l[9..].to_vec()]), agree()], fd, "conn_slow_trickle", true);
+        }
+        GAP_US.store(700, std::sync::atomic::Ordering::SeqCst);
     }
     // 3. close after k bytes, for every k, at each step (k = whole reply is racy for connect_to_bus: the
     //    client's next write may or may not see the close; it is done deterministically on the step functions)
